@@ -114,10 +114,15 @@ def part1(ctx, rep, rng, n_cases):
             chunks = cut_stream(rng, frames, mode)
             fes = GROUP[framer] if mode == 'frame' else [f for f in GROUP[framer] if f in frontends.STREAM_FRONTENDS]
         grp = []
+        # a process that has been serving for a while: the message counters (which only the Twisted front-ends advance)
+        # stand just below / at / above the 16-bit boundary — the replies must not depend on that
+        start = None
+        if rng.random() < 0.15:
+            start = {'counters': [rng.choice([65530, 65534, 65535])] + [rng.choice([0, 65535]) for _ in range(8)]}
         for fe in fes:
             grp.append(len(cases))
             cases.append(dict(frontend=fe, framer=framer, single=single, units=units, ignore_missing=ignore, broadcast=False,
-                              chunks=chunks, mode=mode))
+                              chunks=chunks, mode=mode, identity=start))
         groups.append(grp)
     res = serverlib.run_both(ctx, cases)
     for grp in groups:
